@@ -497,8 +497,60 @@ def corpus():
             out.append((fn, open(os.path.join(CORPUS_DIR, fn), "rb").read()))
     return out
 
+def _fn_body(src, name):
+    """text of `fn name(` up to the next `\n    fn ` / `\n    pub fn ` at method indentation (good enough for the markers below)"""
+    i = src.find("fn %s(" % name)
+    if i < 0:
+        return None
+    m = re.search(r"\n    (?:pub(?:\([a-z]+\))? )?fn ", src[i + 3:])
+    return src[i:i + 3 + m.start()] if m else src[i:]
+
 def model_cfg():
-    """which code the model stands for: cfg_fixed (patched tree, default) or cfg_orig (unpatched tree)"""
-    c = os.environ.get("VERIF_LEF_CFG", "cfg_fixed")
-    assert c in ("cfg_fixed", "cfg_orig")
-    return c
+    try:
+        return _model_cfg()
+    except RuntimeError as e:
+        # the tie between the flagged model and the source is broken: the model no longer knows which code it stands for.
+        # cfg_fixed is used so that the run still compares something; the caller reports the broken tie.
+        MODEL_CFG_PROBLEMS.append(str(e))
+        return "cfg_fixed"
+
+MODEL_CFG_PROBLEMS = []
+def _model_cfg():
+    """Which code the model stands for.  The Coq model of the LEF reader/writer carries one boolean per defect that was
+    found in the pinned tree (Lef/LefParse.v, Record cfg); each flag is RE-READ FROM THE SOURCE on every run, so the model
+    follows the tree: a flag is `true` (defective behaviour) when the source still has the defective form.  Where the source
+    has neither the defective nor the repaired form the reader of the flags gives up (None -> the check reports a broken tie).
+    VERIF_LEF_CFG=cfg_fixed|cfg_orig|"(mkcfg ...)" overrides (experiments only)."""
+    c = os.environ.get("VERIF_LEF_CFG")
+    if c:
+        assert c in ("cfg_fixed", "cfg_orig") or c.startswith("(mkcfg ")
+        return c
+    from vlib import REPO
+    rd = open(os.path.join(REPO, "lef21/src/read.rs")).read()
+    wr = open(os.path.join(REPO, "lef21/src/write.rs")).read()
+    da = open(os.path.join(REPO, "lef21/src/data.rs")).read()
+    flags = []
+    def flag(defective, repaired, what):
+        if defective and not repaired:
+            flags.append("true")
+        elif repaired and not defective:
+            flags.append("false")
+        else:
+            raise RuntimeError("cannot tell which LEF code the tree has for: " + what)
+    nc = _fn_body(rd, "next_char") or ""
+    flag("self.pos += 1" in nc, "len_utf8()" in nc, "LefLexer::next_char position unit")
+    pm, pp = _fn_body(rd, "parse_macro") or "", _fn_body(rd, "parse_pin") or ""
+    nprop = (".properties(properties)" in pm) + (".properties(properties)" in pp)
+    flag(nprop == 0, nprop == 2, "parse_macro/parse_pin hand properties to the builder")
+    pl = _fn_body(rd, "parse_point_list") or ""
+    flag("while !self.matches(TokenType::SemiColon)" in pl, "while self.matches(TokenType::Number)" in pl, "parse_point_list terminator")
+    tn = _fn_body(da, "try_new") or ""
+    flag("contains(&x.mantissa())" in tn, "trunc().mantissa()" in tn, "LefDbuPerMicron::try_new integer value")
+    m = re.search(r"LefKey::NoWireExtensionAtPin => \{(.*?)self\.advance\(\)", rd, re.S)
+    gate = m.group(1) if m else ""
+    flag(m is not None and "lef_version" not in gate, m is not None and "lef_version > *V5P4" in gate, "NOWIREEXTENSIONATPIN version gate in the reader")
+    ws = _fn_body(wr, "write_site") or ""
+    flag('{Site} {site.name} ; "' in ws and '{site.class};"' in ws, '{Site} {site.name} "' in ws and '{site.class} ;"' in ws and '{End} {site.name} "' in ws, "write_site punctuation")
+    wp = _fn_body(wr, "write_property") or ""
+    flag('"{Property} {} {}"' in wp, '"{Property} {} {} ;"' in wp, "write_property terminator")
+    return "(mkcfg %s)" % " ".join(flags)
